@@ -34,6 +34,11 @@ func Scenarios(prop string) []gx.Sc {
 			{Name: "cons?n=3&cuts=3&fmts=5&nb=2&move=1&app=1&buf=4&faults=" + faults + "&gates=" + gates + icpt, Q: 2, T: 3},
 			{Name: "cons?n=3&cuts=2&fmts=0&ver=0.8.2.0&slow=1&buf=0&fsz=40&faults=" + faults + "&gates=" + gates + icpt, Q: 2, T: 3},
 		}
+	case "C11":
+		return []gx.Sc{
+			{Name: "cons?txn=dA,dB,aA,cB,dN&iso=rc&bpf=1&slow=1&faults=" + faults + "&gates=" + gates, Q: 2, T: 3},
+			{Name: "cons?txn=dA,aA,dA,cA&iso=rc&bpf=2&buf=1&slow=1&faults=" + faults + "&gates=" + gates, Q: 2, T: 3},
+		}
 	case "C12":
 		return []gx.Sc{
 			{Name: "cons?n=3&cuts=2&fmts=5&slow=1&buf=0&closeany=1&faults=" + faults + "&gates=" + gates, Q: 2, T: 3},
@@ -137,6 +142,98 @@ func LayoutFamily(thorough bool) []string {
 									}
 								}
 							}
+						}
+					}
+				}
+			}
+		}
+	}
+	return out
+}
+
+// TxnFamily enumerates the transactional logs of C11: every well-formed sequence of <= maxLen batches
+// over {data of producer A / B (transactional), non-transactional data, commit/abort marker of A / B},
+// x fetch boundaries (1, 2 or all batches per fetch) x every start offset x isolation level x every
+// order of the aborted-transaction index x two protocol generations.
+func TxnFamily(thorough bool) []string {
+	maxLen := 5
+	if thorough {
+		maxLen = 6
+	}
+	alphabet := []string{"dA", "dB", "dN", "cA", "cB", "aA", "aB"}
+	var seqs [][]string
+	var rec func(cur []string, open map[byte]bool)
+	rec = func(cur []string, open map[byte]bool) {
+		if len(cur) > 0 {
+			seqs = append(seqs, append([]string(nil), cur...))
+		}
+		if len(cur) == maxLen {
+			return
+		}
+		for _, a := range alphabet {
+			k, w := a[0], a[1]
+			if (k == 'c' || k == 'a') && !open[w] {
+				continue // a marker closes an open transaction of that producer
+			}
+			o2 := map[byte]bool{'A': open['A'], 'B': open['B']}
+			if k == 'd' && w != 'N' {
+				o2[w] = true
+			}
+			if k == 'c' || k == 'a' {
+				o2[w] = false
+			}
+			rec(append(cur, a), o2)
+		}
+	}
+	rec(nil, map[byte]bool{})
+	var out []string
+	for _, sq := range seqs {
+		hasTxn, aborted, hwm := false, 0, 0
+		for _, e := range sq {
+			if e[0] == 'd' {
+				hwm += 2
+				if e[1] != 'N' {
+					hasTxn = true
+				}
+			} else {
+				hwm++
+				if e[0] == 'a' {
+					aborted++
+				}
+			}
+		}
+		if !hasTxn && len(sq) > 2 {
+			continue // purely non-transactional logs are C03's business
+		}
+		spec := ""
+		for i, e := range sq {
+			if i > 0 {
+				spec += ","
+			}
+			spec += e
+		}
+		perms := 1
+		for i := 2; i <= aborted; i++ {
+			perms *= i
+		}
+		for _, ver := range []string{"0.11.0.0", "2.1.0"} {
+			if ver == "0.11.0.0" && len(sq) > 4 && !thorough {
+				continue
+			}
+			for _, iso := range []string{"rc", "ru"} {
+				for _, bpf := range []int{0, 1, 2} {
+					if bpf == 2 && len(sq) < 3 {
+						continue
+					}
+					for start := 0; start <= hwm; start++ {
+						if len(sq) == maxLen && start > 4 && start < hwm-1 {
+							continue // longest logs: the first offsets and the last two only
+						}
+						for abo := 0; abo < perms; abo++ {
+							if iso == "ru" && abo > 0 {
+								break
+							}
+							out = append(out, fmt.Sprintf("cons?ver=%s&txn=%s&iso=%s&bpf=%d&start=%d&abo=%d", ver, spec, iso, bpf, start, abo))
 						}
 					}
 				}
